@@ -424,6 +424,10 @@ func (s *Session) writeCompressed(rw io.ReadWriter, p *Proposal) (err error) {
 		s.log.Println("GZIP_EXPERIMENT:", "Transmitting gzip compressed message.")
 	}
 
+	if p.offset < 0 || p.offset > len(p.compressedData) {
+		return fmt.Errorf("Remote requested offset %d, but the message is only %d bytes", p.offset, len(p.compressedData))
+	}
+
 	writer := bufio.NewWriter(rw)
 
 	var (
